@@ -39,6 +39,7 @@ def register(reg):
     register_volume_intersects(reg)
     register_contains_object(reg)
     register_circumradius(reg)
+    register_shape_circumradius(reg)
 
 
 def hypot_of(eng, name, sqsum):
@@ -512,5 +513,81 @@ def register_circumradius(reg):
             bounded=True,
             note="fallback arm (no precomputed shape); mesh of 2 vertices (symbolic)",
             properties=("C04",),
+        )
+    )
+
+
+# ===================================================================================================
+# Shape._circumradius: the per-shape radius behind K1 when a region has a shape (`_shape` / `_scaledShape` arms of
+# MeshVolumeRegion._circumradius multiply it by the largest dimension).  The region's position is the image of the
+# ORIGIN of the shape's mesh, so the ball must be taken about the origin.
+
+
+def register_shape_circumradius(reg):
+    NV = 2
+
+    def setup(I, env):
+        eng = I.eng
+        S = PObj(repo_class("scenic.core.shapes:MeshShape"), tag="self")
+        mesh = MS.make_mesh(I, "self.mesh")
+        vs = [[eng.fresh_real(f"v{i}.{c}") for c in "xyz"] for i in range(NV)]
+        mesh.fields["vertices"] = MS.NDArr((NV, 3), vs)
+        # the bounds of the abstract mesh enclose its vertices
+        for k in range(3):
+            eng.assume(sv_and(*[sv_and(compare("<=", mesh.fields["_lo"][k], v[k]), compare("<=", v[k], mesh.fields["_hi"][k])) for v in vs]))
+        for i, v in enumerate(vs):
+            eng.input_syms.append((f"v{i}", C.TupleOf(C.Real(), C.Real(), C.Real()), tuple(v)))
+        S.fields.update(mesh=mesh)
+        env.vars.update(self=S, _vs=vs)
+
+    def post(I, env, outcome):
+        eng = I.eng
+        if outcome[0] != "return":
+            return
+        r = outcome[1]
+        oname = "shapes.Shape._circumradius"
+        ok = isinstance(r, (int, float, SV))
+        eng.check(f"{oname}#ensures.returns_a_number", ok)
+        if ok:
+            zero = (0, 0, 0)
+            eng.check(f"{oname}#ensures.every_vertex_within_the_radius_of_the_mesh_origin", sv_and(compare(">=", r, 0), *[compare("<=", dist3sq(v, zero), sq(r)) for v in env.vars["_vs"]]))
+            eng.check(f"{oname}#ensures.some_vertex_at_the_radius", sv_or(*[compare("==", dist3sq(v, zero), sq(r)) for v in env.vars["_vs"]]))
+
+    def replay(inputs, clause):
+        import math
+        import warnings
+
+        warnings.filterwarnings("ignore")
+        import numpy
+        import trimesh
+
+        from scenic.core.shapes import BoxShape, ConeShape, MeshShape
+
+        wedge = trimesh.convex.convex_hull(numpy.array([[-1, -1, -0.1], [-1, 1, -0.1], [-1, -1, 0.1], [-1, 1, 0.1], [1, 0, 0]], dtype=float))
+        for name, shape in [
+            ("wedge, initial_rotation (45 deg, 0, 0)", MeshShape(wedge, initial_rotation=(math.radians(45), 0, 0))),
+            ("wedge, initial_rotation (30, 20, 10 deg)", MeshShape(wedge, initial_rotation=(math.radians(30), math.radians(20), math.radians(10)))),
+            ("cone, initial_rotation (0, 40 deg, 0)", ConeShape(initial_rotation=(0, math.radians(40), 0))),
+            ("box", BoxShape()),
+        ]:
+            far = float(numpy.max(numpy.linalg.norm(shape.mesh.vertices, axis=1)))
+            got = float(shape._circumradius)
+            if "within" in clause and got < far - 1e-9:
+                return f"shape ({name}): _circumradius = {got:.4f} but a vertex of its mesh is {far:.4f} from the mesh origin (the point that becomes the object's position), so the bounding-sphere pass of intersects can reject overlapping solids"
+            if "some_vertex" in clause and got > far + 1e-9:
+                return f"shape ({name}): _circumradius = {got:.4f} exceeds the largest vertex distance {far:.4f}"
+        return None
+
+    reg.add(
+        C.Contract(
+            "scenic.core.shapes:Shape._circumradius",
+            params=dict(self=C.Const(None)),
+            setup=setup,
+            post=post,
+            inline_all=True,
+            replay=replay,
+            bounded=True,
+            note="mesh of 2 vertices (symbolic coordinates)",
+            properties=("C04", "C02"),
         )
     )
